@@ -44,8 +44,7 @@ enum {
   S_pika_c_pu_m_step, S_pika_c_pu_m_offset, S_pika_c_numa_m_sensitive, S_pika_c_ignore_m_process_m_mask,
   S_pika_c_high_m_priority_m_threads, S_pika_c_ini, S_pika_c_debug_m_clp
 };
-/* a string literal the model has no name for: an arbitrary token that is none of the above */
-#define VX_UNKNOWN_STR(h) (1000 + (h))
+/* a string literal the model has no name for is lifted as the number 1000000 + crc(literal): a token that is none of the above */
 
 static bool g_num_ok[NTOK];
 static size_t g_num[NTOK];
@@ -59,7 +58,9 @@ enum { EXC_none = 0, EXC_command_line_error = 1, EXC_bad_lexical_cast = 2, EXC_b
 static bool vx_exc;
 static int g_exc_kind;
 static long g_throws;
-static void vx_throw(int kind) { vx_exc = true; g_exc_kind = kind; g_throws++; }
+static void vx_throw(int kind) { vx_exc = true; g_exc_kind = kind; g_throws++; }   /* a `throw` of the lifted text, or of a library stub */
+static bool g_callee_threw;           /* the exception in flight was raised by a callee stub of a T unit, not by the lifted text itself */
+static void vx_callee_throw(int kind) { vx_exc = true; g_exc_kind = kind; g_callee_threw = true; }
 
 /* ---- the three sources ------------------------------------------------------------------------------------------------ */
 struct cfg_entry { bool present; str_t val; };
@@ -217,6 +218,7 @@ static void init_tokens(void)
   vx_exc = false;
   g_exc_kind = EXC_none;
   g_throws = 0;
+  g_callee_threw = false;
 }
 static void init_cfg_entry(struct cfg_entry *e) { e->present = nondet_bool(); e->val = nondet_tok(); }
 static void init_vm_entry(struct vm_entry *e) { e->present = nondet_bool(); e->sval = nondet_tok(); e->nval = nondet_size(); }
